@@ -15,7 +15,8 @@
   rewritten one; `perm_invariant_current` and `perm_invariant_tiefix` state determinism for the newer forms.
 
   NOT proved here: that the C code equals the model (correspondence check), anything about dlopen
-  itself, int overflow in _cmp_f, the MAXPATHLEN guard of the ancestor walk.
+  itself, the MAXPATHLEN guard of the ancestor walk.  Int overflow in _cmp_f: `priorities_in_range_sort_as_modelled`
+  (no effect below 2^30) and `prio_overflow_witness` (finding F17-PRIO-OVERFLOW beyond).
 
   THE LOADER'S I/O, exactly.  The model takes the world as parameters of `Env`/`Dir`/`File`; the
   correspondence check runs the real binary under harness/preload_shim.c, which makes the world BE
@@ -66,12 +67,14 @@
   nor below an insecure ancestor                        insecure_path_loads_nothing, path_decision, unknown_owner_loads_nothing
   root and set-uid runs ignore PDSH_MODULE_DIR          root_ignores_env, dir_decision
   all clauses at once, code as it is now                spec_sound
+  "for all priorities"                                   priorities_in_range_sort_as_modelled, prio_overflow_witness
 -/
 import PdshVerif.Mod.Determinism
 import PdshVerif.Mod.TieLemmas
 import PdshVerif.Mod.Spec
 import PdshVerif.Mod.SpecSound
 import PdshVerif.Mod.SplitLemmas
+import PdshVerif.Mod.PrioWrap
 
 namespace PdshVerif.C17
 open PdshVerif.Mod
@@ -465,6 +468,28 @@ example :
   intro f
   simp only [List.mem_cons, List.mem_nil_iff, or_false, List.getElem!_eq_getElem?_getD]
   constructor <;> (intro h; rcases h with h | h | h | h <;> subst h <;> simp)
+
+/-! ## priorities on a 32-bit int -/
+
+/-- `_cmp_f` returns `y->priority - x->priority` in int arithmetic; the models subtract in ℤ.  On every module
+    list whose priorities are below 2^30 in magnitude list_sort with the machine's comparison (`cmpFWrap`: the
+    difference wrapped into 32 bits) gives exactly the list the model sorts -- so all theorems above speak about
+    the 32-bit code for such priorities (this is what "priorities far from INT_MAX" means, exactly) -/
+theorem priorities_in_range_sort_as_modelled (l : List Mod) (h : ∀ m ∈ l, PrioWrap.small m) :
+    listSort PrioWrap.cmpFWrap l = listSort Tie.cmpF l :=
+  PrioWrap.listSort_wrap_eq l h
+
+/-- F17-PRIO-OVERFLOW witness: priorities 100 and INT_MIN.  100 - INT_MIN does not fit an int, the wrapped
+    difference is negative, and the module with the LOWEST possible priority is put first (finding open;
+    findings/C17-prio.patch compares instead of subtracting) -/
+theorem prio_overflow_witness :
+    let a : Mod := ⟨"a.so".toList, miscType, "alpha".toList, 100, ⟨some miscType, some "alpha".toList, 100, 3, some [], none⟩, false⟩
+    let b : Mod := ⟨"b.so".toList, miscType, "beta".toList, -2147483648,
+                    ⟨some miscType, some "beta".toList, -2147483648, 3, some [], none⟩, false⟩
+    (listSort PrioWrap.cmpFWrap [a, b]).map (·.prio) = [-2147483648, 100] ∧
+    (listSort Tie.cmpF [a, b]).map (·.prio) = [100, -2147483648] ∧
+    (listSort PrioWrap.cmpFWrap [b, a]).map (·.prio) = [-2147483648, 100] := by
+  decide
 
 /-! ## duplicates -/
 
